@@ -938,22 +938,13 @@ func truncate(s string, n int) string {
 	return s
 }
 
-// canonURL is net/url's own re-serialisation of a location (scheme in lower case, characters that may not stand raw
-// percent-encoded): the same endpoint written in another, equivalent spelling is the same endpoint.
-func canonURL(s string) string {
-	if u, err := url.Parse(s); err == nil && (u.Scheme == "http" || u.Scheme == "https") {
-		return u.String()
-	}
-	return s
-}
-
 func collectEndpoints(m *saml.EntityDescriptor, onlyKnown bool) []string {
 	var out []string
 	ep := func(kind string, e saml.Endpoint) {
 		if onlyKnown && !knownBinding(e.Binding) {
 			return
 		}
-		out = append(out, fmt.Sprintf("%s|%s|%s|%s", kind, e.Binding, canonURL(e.Location), canonURL(e.ResponseLocation)))
+		out = append(out, fmt.Sprintf("%s|%s|%s|%s", kind, e.Binding, e.Location, e.ResponseLocation))
 	}
 	iep := func(kind string, e saml.IndexedEndpoint) {
 		if onlyKnown && !knownBinding(e.Binding) {
@@ -961,13 +952,13 @@ func collectEndpoints(m *saml.EntityDescriptor, onlyKnown bool) []string {
 		}
 		rl := "<nil>"
 		if e.ResponseLocation != nil {
-			rl = canonURL(*e.ResponseLocation)
+			rl = *e.ResponseLocation
 		}
 		def := "<nil>"
 		if e.IsDefault != nil {
 			def = fmt.Sprint(*e.IsDefault)
 		}
-		out = append(out, fmt.Sprintf("%s|%s|%s|%s|%d|%s", kind, e.Binding, canonURL(e.Location), rl, e.Index, def))
+		out = append(out, fmt.Sprintf("%s|%s|%s|%s|%d|%s", kind, e.Binding, e.Location, rl, e.Index, def))
 	}
 	sso := func(p string, s saml.SSODescriptor) {
 		for _, e := range s.ArtifactResolutionServices {
